@@ -17,9 +17,12 @@ pub struct Case {
     pub cdata: u32,
     pub unescaped_gt: bool,
     pub suppress: u32,
+    /// give both lists in reverse order (only matters when a list has two names)
+    #[serde(default)]
+    pub reversed: bool,
 }
 
-fn names(xot: &mut Xot, mask: u32) -> Vec<xot::NameId> {
+fn names(xot: &mut Xot, mask: u32, reversed: bool) -> Vec<xot::NameId> {
     let a = xot.add_name("a");
     let b = xot.add_name("b");
     let mut v = vec![];
@@ -28,6 +31,9 @@ fn names(xot: &mut Xot, mask: u32) -> Vec<xot::NameId> {
     }
     if mask & 2 != 0 {
         v.push(b);
+    }
+    if reversed {
+        v.reverse();
     }
     v
 }
@@ -119,11 +125,11 @@ pub fn eval_case(case: &Case, st: &mut Stats) -> Vec<Fail> {
     let mut handles = vec![];
     build(&mut xot, &case.tree, &mut handles);
     let top = handles[case.top];
-    let cd = names(&mut xot, case.cdata);
-    let sup = names(&mut xot, case.suppress);
+    let cd = names(&mut xot, case.cdata, case.reversed);
+    let sup = names(&mut xot, case.suppress, case.reversed);
     let tab: std::collections::HashMap<xot::Node, usize> = handles.iter().enumerate().map(|(i, n)| (*n, i)).collect();
     let xot = &xot;
-    let desc = || format!("{} top=#{} cdata={} gt={} suppress={}", case.tree.show(), case.top, case.cdata, case.unescaped_gt, case.suppress);
+    let desc = || format!("{} top=#{} cdata={} gt={} suppress={} reversed={}", case.tree.show(), case.top, case.cdata, case.unescaped_gt, case.suppress, case.reversed);
     let plain = Parameters { cdata_section_elements: cd.clone(), unescaped_gt: case.unescaped_gt, ..Default::default() };
     let pretty = Parameters { cdata_section_elements: cd.clone(), unescaped_gt: case.unescaped_gt, indentation: Some(Indentation { suppress: sup.clone() }), ..Default::default() };
     let tparams = || TokenSerializeParameters { cdata_section_elements: cd.clone(), unescaped_gt: case.unescaped_gt };
@@ -393,8 +399,13 @@ pub fn run(tier: Tier) -> i32 {
         });
         st.bump("trees");
         for top in tops {
-            for cfg in 0..16u32 {
-                let case = Case { tree: t.clone(), top, cdata: cfg & 3, unescaped_gt: cfg & 4 != 0, suppress: if cfg & 8 != 0 { (cfg & 3) ^ 3 } else { 0 } };
+            for cfg in 0..32u32 {
+                let reversed = cfg & 16 != 0;
+                let suppress = if cfg & 8 != 0 { (cfg & 3) ^ 3 } else { 0 };
+                if reversed && cfg & 3 != 3 && suppress != 3 {
+                    continue; // no list with two names: the order cannot matter
+                }
+                let case = Case { tree: t.clone(), top, cdata: cfg & 3, unescaped_gt: cfg & 4 != 0, suppress, reversed };
                 let fails = eval_case(&case, st);
                 st.bump("cases");
                 st.outcome(&(t.canon(), top, cfg));
@@ -412,7 +423,7 @@ pub fn run(tier: Tier) -> i32 {
         return 2;
     }
     let cov = json!({
-        "rule": format!("every serialisable document / fragment with <= {} ordinary nodes over 4 element prototypes (attributes, prefixed and default declarations), text (plain and ']]>&<'), comment, PI, plus 2-element (thorough: 3-element) namespace layouts; every ordinary node as serialisation root (in-place subtrees inherit declarations) x CDATA-section subsets of {{a,b}} x unescaped_gt x suppress subsets; distinct = distinct (tree, root, parameters)", tier.pick(4, 5)),
+        "rule": format!("every serialisable document / fragment with <= {} ordinary nodes over 4 element prototypes (attributes, prefixed and default declarations), text (plain and ']]>&<'), comment, PI, plus 2-element (thorough: 3-element) namespace layouts; every ordinary node as serialisation root (in-place subtrees inherit declarations) x CDATA-section subsets of {{a,b}} x unescaped_gt x suppress subsets (two-name lists in both orders); distinct = distinct (tree, root, parameters)", tier.pick(4, 5)),
     });
     ctx.finish(stats, cov, vec![])
 }
